@@ -15,8 +15,6 @@
 package flow
 
 import (
-	"sync"
-
 	"github.com/alibaba/sentinel-golang/core/base"
 	metric_exporter "github.com/alibaba/sentinel-golang/exporter/metric"
 )
@@ -67,31 +65,6 @@ type TrafficShapingController struct {
 	rule *Rule
 	// boundStat is the statistic of current TrafficShapingController
 	boundStat standaloneStatistic
-	// loadedID is the ID of the rule this controller currently stands for, if it is not rule.ID (renamed).
-	// Both are guarded by loadedIDMux.
-	loadedID string
-	renamed  bool
-}
-
-var loadedIDMux sync.Mutex
-
-// loadedRuleID returns the ID of the rule the controller currently stands for. It differs from
-// BoundRule().ID after a load that gave the rule another ID and changed nothing else: the controller,
-// and the rule object in it, stay in place then.
-func (t *TrafficShapingController) loadedRuleID() string {
-	loadedIDMux.Lock()
-	defer loadedIDMux.Unlock()
-	if t.renamed {
-		return t.loadedID
-	}
-	return t.rule.ID
-}
-
-func (t *TrafficShapingController) setLoadedRuleID(id string) {
-	loadedIDMux.Lock()
-	defer loadedIDMux.Unlock()
-	t.renamed = id != t.rule.ID
-	t.loadedID = id
 }
 
 func NewTrafficShapingController(rule *Rule, boundStat *standaloneStatistic) (*TrafficShapingController, error) {
